@@ -97,13 +97,8 @@ function getPrepareStackTrace (originalPrepareStackTrace) {
     }
 
     const stackLines = error.stack.split('\n')
-    let firstIndex = -1
-    for (let i = 0; i < stackLines.length; i++) {
-      if (stackLines[i].match(/^\s*at/gm)) {
-        firstIndex = i
-        break
-      }
-    }
+    // the frames are the last lines of the stack, one per call site (a line of the message may start with "at" as well)
+    const firstIndex = stackLines.length - structuredStackTrace.length
     return stackLines
       .map((stackFrame, index) => {
         if (index < firstIndex) {
